@@ -1366,7 +1366,7 @@ pub struct AddressAssignment {
 
 lazy_static! {
     static ref DIRECT_ADDRESS_UNASSIGNED: Regex = Regex::new(r"%([IQM])\*").unwrap();
-    static ref DIRECT_ADDRESS: Regex = Regex::new(r"%([IQM])([XBWDL])?(\d+(\.\d+)*)").unwrap();
+    static ref DIRECT_ADDRESS: Regex = Regex::new(r"%([IQM])([XBWDL])?(\d(_?\d)*(\.\d(_?\d)*)*)").unwrap();
 }
 
 impl TryFrom<&str> for AddressAssignment {
@@ -1390,7 +1390,8 @@ impl TryFrom<&str> for AddressAssignment {
                 SizePrefix::try_from(cap.get(2).and_then(|m| m.as_str().chars().next()))?;
             let pos = cap[3]
                 .split('.')
-                .map(|v| v.parse::<u32>())
+                // digits may be separated by single underscores
+                .map(|v| v.replace('_', "").parse::<u32>())
                 .collect::<Result<Vec<u32>, _>>()
                 .map_err(|e| "Address component is too large")?;
 
